@@ -163,7 +163,7 @@ def _validate_shard(module, cfg, path, timeout, extra_env):
     return r
 
 
-def validate(module, cfg, records, shards=8, timeout=900, tag=None, extra_env=None, keep=False):
+def validate(module, cfg, records, shards=8, timeout=900, tag=None, extra_env=None, keep=False, group_key=None):
     """Batch trace validation.
 
     `records`: list of JSON-serialisable dicts, each with a unique "tid". The trace module prints one
@@ -176,9 +176,20 @@ def validate(module, cfg, records, shards=8, timeout=900, tag=None, extra_env=No
     rundir = os.path.join(BUILD, "run", f"{tag or module}-{os.getpid()}-{time.time_ns()}")
     os.makedirs(rundir, exist_ok=True)
     shards = max(1, min(shards, len(records)))
+    if group_key:
+        # records of one group stay together (and in order) in one shard
+        groups = {}
+        for rec in records:
+            groups.setdefault(rec[group_key], []).append(rec)
+        shards = max(1, min(shards, len(groups)))
+        parts = [[] for _ in range(shards)]
+        for k, g in enumerate(sorted(groups)):
+            parts[k % shards].extend(groups[g])
+    else:
+        parts = [records[s::shards] for s in range(shards)]
     paths = []
     for s in range(shards):
-        part = records[s::shards]
+        part = parts[s]
         p = os.path.join(rundir, f"shard{s}.ndjson")
         with open(p, "w") as f:
             for rec in part:
